@@ -527,7 +527,16 @@ func (l *c14Load) judge(c *c14Case, bound time.Duration) {
 	}
 }
 
-func c14RunKilled(id int, name string, k int, writers, readers bool, mt MemMapType) c14Case {
+// mode 0: the peer is killed as it is.
+// mode 1: "peer hung with unread bytes": the peer is SIGSTOPped, the survivor flushes messages (polling
+//
+//	events now sit unread in the peer's socket), then the peer is SIGKILLed — the kernel closes its
+//	socket with unread data and the survivor's read(2) returns ECONNRESET instead of 0.
+//
+// mode 2: the survivor has unread incoming bytes when the peer dies: the dispatcher is held by a gate
+//
+//	lambda, the peer answers (its events arrive unread) and is killed, then the gate opens.
+func c14RunKilled(id int, name string, k int, writers, readers bool, mt MemMapType, mode int) c14Case {
 	c := c14Case{ID: id, Kind: "killed", Name: name}
 	sock := filepath.Join(c14Scratch, fmt.Sprintf("k%d.sock", id))
 	os.Remove(sock)
@@ -590,7 +599,41 @@ func c14RunKilled(id int, name string, k int, writers, readers bool, mt MemMapTy
 		return c
 	}
 	time.Sleep(50 * time.Millisecond)
-	cmd.Process.Signal(syscall.SIGKILL)
+	switch mode {
+	case 1:
+		cmd.Process.Signal(syscall.SIGSTOP)
+		time.Sleep(100 * time.Millisecond)
+		before := atomic.LoadUint64(&cs.stats.sendPollingEventCount)
+		st := load.streams[1] // no reader is parked on the odd streams
+		for i := 0; i < 3; i++ {
+			st.BufferWriter().WriteBytes(c14Msg(48, false))
+			st.Flush(false)
+		}
+		if atomic.LoadUint64(&cs.stats.sendPollingEventCount) == before {
+			// the peer's consumer was marked working: put a wake-up event on the socket explicitly
+			cs.waitForSend(nil, pollingEventWithVersion[cs.communicationVersion])
+			c.Feat = append(c.Feat, "explicit-polling-event")
+		}
+		time.Sleep(50 * time.Millisecond)
+		c.Feat = append(c.Feat, "peer-hung-with-unread-bytes")
+		cmd.Process.Signal(syscall.SIGKILL)
+	case 2:
+		gate := make(chan struct{})
+		defaultDispatcher.post(func() { <-gate })
+		time.Sleep(1200 * time.Millisecond) // the dispatcher is inside the gate lambda by now
+		st := load.streams[1]
+		for i := 0; i < 3; i++ {
+			st.BufferWriter().WriteBytes(c14Msg(48, true)) // the peer echoes: its events arrive unread
+			st.Flush(false)
+		}
+		time.Sleep(300 * time.Millisecond)
+		cmd.Process.Signal(syscall.SIGKILL)
+		time.Sleep(100 * time.Millisecond)
+		c.Feat = append(c.Feat, "survivor-has-unread-incoming-bytes")
+		close(gate)
+	default:
+		cmd.Process.Signal(syscall.SIGKILL)
+	}
 	load.judge(&c, 8*time.Second)
 	c.Residue = c14WaitClean(id, []string{inode}, 2*time.Second)
 	for _, r := range c.Residue {
@@ -910,12 +953,12 @@ func c14RunChild(id int, mode, name string, crashSig, notFailSig string) c14Case
 // Scenarios in which user goroutines write while the session dies expose the process to the known
 // unmap-vs-in-flight-user crash: they run in a process of their own, so that a crash is attributed to
 // that defect instead of taking the whole harness down.
-func c14Isolated(id int, kind, name string, k int, writers, readers bool, mt MemMapType) c14Case {
+func c14Isolated(id int, kind, name string, k int, writers, readers bool, mt MemMapType, mode int) c14Case {
 	tmp := filepath.Join(c14Scratch, fmt.Sprintf("iso%d.jsonl", id))
 	os.Remove(tmp)
 	cmd := exec.Command(os.Args[0], "-test.run", "^TestVerif_C14$")
 	cmd.Env = append(os.Environ(), "VERIF_C14_CHILD=scenario", "VERIF_OUT="+tmp,
-		fmt.Sprintf("VERIF_C14_SPEC=%s|%s|%d|%t|%t|%d|%d", kind, name, k, writers, readers, mt, id))
+		fmt.Sprintf("VERIF_C14_SPEC=%s|%s|%d|%t|%t|%d|%d|%d", kind, name, k, writers, readers, mt, id, mode))
 	outb, err := cmd.CombinedOutput()
 	defer os.Remove(tmp)
 	if b, rerr := os.ReadFile(tmp); rerr == nil && err == nil {
@@ -949,10 +992,10 @@ func c14Isolated(id int, kind, name string, k int, writers, readers bool, mt Mem
 
 func c14ChildScenario(t *testing.T) {
 	var kind, name string
-	var k, mt, id int
+	var k, mt, id, mode int
 	var writers, readers bool
 	f := strings.Split(os.Getenv("VERIF_C14_SPEC"), "|")
-	if len(f) != 7 {
+	if len(f) != 8 {
 		t.Fatal("bad spec")
 	}
 	kind, name = f[0], f[1]
@@ -960,11 +1003,12 @@ func c14ChildScenario(t *testing.T) {
 	writers, readers = f[3] == "true", f[4] == "true"
 	fmt.Sscan(f[5], &mt)
 	fmt.Sscan(f[6], &id)
+	fmt.Sscan(f[7], &mode)
 	c14Scratch = os.Getenv("VERIF_SCRATCH")
 	out := vopenOut(t)
 	defer out.close()
 	if kind == "killed" {
-		out.emit(c14RunKilled(id, name, k, writers, readers, MemMapType(mt)))
+		out.emit(c14RunKilled(id, name, k, writers, readers, MemMapType(mt), mode))
 	} else {
 		out.emit(c14RunSevered(id, name, k, writers, readers, MemMapType(mt)))
 	}
@@ -1015,25 +1059,35 @@ func TestVerif_C14(t *testing.T) {
 		for _, mt := range []MemMapType{MemMapTypeDevShmFile, MemMapTypeMemFd} {
 			mt := mt
 			i1, i2, i3, i4, i5, i6, i7 := next(), next(), next(), next(), next(), next(), next()
+			i8, i9, i10 := next(), next(), next()
+			run(func() c14Case {
+				return c14RunKilled(i8, fmt.Sprintf("killed-peer-hung-with-unread-bytes-readers-pending-mt%d", mt), 2, false, true, mt, 1)
+			})
+			run(func() c14Case {
+				return c14RunKilled(i9, fmt.Sprintf("killed-peer-hung-with-unread-bytes-idle-mt%d", mt), 1, false, false, mt, 1)
+			})
+			run(func() c14Case {
+				return c14Isolated(i10, "killed", fmt.Sprintf("killed-survivor-has-unread-incoming-bytes-mt%d", mt), 1, false, true, mt, 2)
+			})
 			k := 1 + r.intn(5)
 			run(func() c14Case { return c14RunTrace(i1, mt) })
 			run(func() c14Case {
-				return c14RunKilled(i2, fmt.Sprintf("killed-idle-after-%d-roundtrips-mt%d", k, mt), k, false, false, mt)
+				return c14RunKilled(i2, fmt.Sprintf("killed-idle-after-%d-roundtrips-mt%d", k, mt), k, false, false, mt, 0)
 			})
 			run(func() c14Case {
-				return c14Isolated(i3, "killed", fmt.Sprintf("killed-mid-flush-mt%d", mt), 1, true, false, mt)
+				return c14Isolated(i3, "killed", fmt.Sprintf("killed-mid-flush-mt%d", mt), 1, true, false, mt, 0)
 			})
 			run(func() c14Case {
-				return c14Isolated(i4, "killed", fmt.Sprintf("killed-mid-read-and-flush-mt%d", mt), 0, true, true, mt)
+				return c14Isolated(i4, "killed", fmt.Sprintf("killed-mid-read-and-flush-mt%d", mt), 0, true, true, mt, 0)
 			})
 			run(func() c14Case {
 				return c14RunSevered(i5, fmt.Sprintf("severed-idle-after-%d-roundtrips-mt%d", k, mt), k, false, false, mt)
 			})
 			run(func() c14Case {
-				return c14Isolated(i6, "severed", fmt.Sprintf("severed-mid-flush-mt%d", mt), 1, true, false, mt)
+				return c14Isolated(i6, "severed", fmt.Sprintf("severed-mid-flush-mt%d", mt), 1, true, false, mt, 0)
 			})
 			run(func() c14Case {
-				return c14Isolated(i7, "severed", fmt.Sprintf("severed-mid-read-and-flush-mt%d", mt), 0, true, true, mt)
+				return c14Isolated(i7, "severed", fmt.Sprintf("severed-mid-read-and-flush-mt%d", mt), 0, true, true, mt, 0)
 			})
 		}
 		ir, il := next(), next()
